@@ -13,6 +13,14 @@ every task, tasklet and container after the run; everything is complete; the sec
 and leaves the store unchanged."""
 from . import exectrace as X
 
+# hypotheses of this property's theorems that are other properties of the list: their ties are re-run (reduced) by
+# harness/main.py after this module's run(); a failure there is reported as a violation of this property
+HYPOTHESES = {
+    'C06': (0.5, 'the result store is a faithful key-value map on every backend (what one worker dumps is what every other loads)'),
+    'C08': (0.5, 'different invocations have different identifiers (one result slot per invocation)'),
+    'C14': (0.4, 'loading the jugfile: barrier / bvalue phases see exactly the stored results'),
+}
+
 EVIDENCE = dict(
     level='proof',
     rule='one case = (program, initial store, backend, worker configuration, schedule) -> one recorded clean run to completion '
